@@ -304,6 +304,8 @@ def rules(ctx):
 W = "src/leaspy/utils/weighted_tensor/_weighted_tensor.py"
 GAU = "src/leaspy/models/obs_models/_gaussian.py"
 VARIANTS = [
+    V("mask-is-a-ratio", "src/leaspy/io/data/dataset.py", "        mask = padding_mask * mask_missingvalues\n", "        mask = padding_mask / mask_missingvalues\n", "C06.R7"),
+    V("padded-rows-from-one", "src/leaspy/io/data/dataset.py", "            padding_mask[i, 0:nb_vis, :] = 1.0\n", "            padding_mask[i, 1:nb_vis, :] = 1.0\n", "C06.R7"),
     V("wsum-unfilled", W, "        weighted_values = weight * self.filled(0)\n", "        weighted_values = weight * self.value\n", "C06.R1"),
     V("weighted-value-unfilled", W, "        return self.weight * self.filled(0)\n", "        return self.weight * self.value\n", "C06.R1"),
     V("neg-drops-weight", W, "        return WeightedTensor(-1 * self.value, self.weight)", "        return WeightedTensor(-1 * self.value)", "C06.R1"),
